@@ -1,6 +1,6 @@
 SPEC = {
     'id': 'C06', 'harness': 'hC06', 'coq_dir': 'C06',
-    'claimed': False,
+    'claimed': True,
     'theorems': [
         'C06_batch_is_fold', 'C06_read_your_writes', 'C06_read_after_batch',
         'C06_iter_refines', 'C06_iter_collect_spec', 'C06_seek_spec', 'C06_prefix_range',
